@@ -21,8 +21,10 @@ package main
 
 import (
 	_ "embed"
+	"fmt"
 	"go/token"
 	"go/types"
+	"regexp"
 	"sort"
 	"strings"
 
@@ -155,6 +157,7 @@ func (w *World) inlineCandidates() map[*ssa.Function][]*ssa.Call {
 // prepareInlining decides which helpers are spliced. Roles are resolved first on the plain graphs
 // (a renamed anchor is not a fresh helper), by running every check once with a discarded report.
 func prepareInlining(w *World) {
+	resolveTypeRenames(w)
 	w.inlSites, w.cur, w.gsub, w.fgflat, w.virt, w.virtOf = nil, nil, nil, nil, nil, nil
 	w.fgis = map[*ssa.Function]*FG{}
 	cands := w.inlineCandidates()
@@ -692,7 +695,11 @@ func structKey(n *types.Named) string {
 	if n == nil || n.Obj() == nil || n.Obj().Pkg() == nil {
 		return ""
 	}
-	return n.Obj().Pkg().Path() + "." + n.Obj().Name()
+	name := n.Obj().Name()
+	if to, ok := typeRenameTo[n.Obj().Pkg().Name()+"."+name]; ok {
+		name = to[strings.Index(to, ".")+1:]
+	}
+	return n.Obj().Pkg().Path() + "." + name
 }
 
 // pinnedFieldName: the name of field i of struct s (named n) as rules know it.
@@ -784,4 +791,157 @@ func (w *World) libStructFields() []string {
 	}
 	sort.SliceStable(out, func(a, b int) bool { return strings.SplitN(out[a], "\t", 2)[0] < strings.SplitN(out[b], "\t", 2)[0] })
 	return out
+}
+
+// ---- renamed private types ----------------------------------------------------------------------
+//
+// Same idea for unexported named types (process, streamWriter, poisonPill, ...): pinned_types.txt lists
+// them with their method names and field count; a pinned type that is gone and a new unexported type of
+// the same package with the same methods and field count are the same type under a new name. Access
+// paths, function names and type lookups then use the pinned name.
+
+//go:embed pinned_types.txt
+var pinnedTypesTxt string
+
+type pinnedType struct {
+	pkg, name, methods string
+	nfields            int
+}
+
+var pinnedTypes = func() []pinnedType {
+	var out []pinnedType
+	for _, l := range strings.Split(pinnedTypesTxt, "\n") {
+		f := strings.Split(strings.TrimSpace(l), "\t")
+		if len(f) == 4 {
+			n := 0
+			fmt.Sscanf(f[3], "%d", &n)
+			out = append(out, pinnedType{f[0], f[1], f[2], n})
+		}
+	}
+	return out
+}()
+
+var typeRename *regexp.Regexp          // matches "pkg.newName" of renamed types
+var typeRenameTo = map[string]string{} // "pkg.newName" -> "pkg.pinnedName"
+var typeRenameFrom = map[string]string{} // "pkg.pinnedName" -> "newName"
+
+func typeSig(n *types.Named) (methods string, nfields int) {
+	var ms []string
+	priv := 0
+	for i := 0; i < n.NumMethods(); i++ {
+		if n.Method(i).Exported() {
+			ms = append(ms, n.Method(i).Name())
+		} else {
+			priv++ // private methods may be renamed along with the type: only their number counts
+		}
+	}
+	sort.Strings(ms)
+	ms = append(ms, fmt.Sprintf("+%d", priv))
+	if s, ok := n.Underlying().(*types.Struct); ok {
+		nfields = s.NumFields()
+	} else {
+		nfields = -1
+	}
+	return strings.Join(ms, ","), nfields
+}
+
+func (w *World) libPrivateTypes(l string) []*types.Named {
+	sp := w.SP[l]
+	if sp == nil {
+		return nil
+	}
+	var out []*types.Named
+	for _, mem := range sp.Members {
+		t, ok := mem.(*ssa.Type)
+		if !ok {
+			continue
+		}
+		n, ok := t.Type().(*types.Named)
+		if !ok || n.Obj().Exported() || n.TypeParams().Len() > 0 {
+			continue
+		}
+		if strings.HasSuffix(w.Fset.Position(n.Obj().Pos()).Filename, ".pb.go") {
+			continue
+		}
+		out = append(out, n)
+	}
+	sort.Slice(out, func(a, b int) bool { return out[a].Obj().Name() < out[b].Obj().Name() })
+	return out
+}
+
+// libTypeTable: -dump-types
+func (w *World) libTypeTable() []string {
+	var out []string
+	for _, l := range libPkgs {
+		for _, n := range w.libPrivateTypes(l) {
+			ms, nf := typeSig(n)
+			out = append(out, fmt.Sprintf("%s\t%s\t%s\t%d", l, n.Obj().Name(), ms, nf))
+		}
+	}
+	return out
+}
+
+// resolveTypeRenames fills the rename tables for this world.
+func resolveTypeRenames(w *World) {
+	typeRename, typeRenameTo, typeRenameFrom = nil, map[string]string{}, map[string]string{}
+	var alts []string
+	for _, l := range libPkgs {
+		cur := map[string]*types.Named{}
+		for _, n := range w.libPrivateTypes(l) {
+			cur[n.Obj().Name()] = n
+		}
+		pinnedNames := map[string]bool{}
+		for _, pt := range pinnedTypes {
+			if pt.pkg == l {
+				pinnedNames[pt.name] = true
+			}
+		}
+		for _, pt := range pinnedTypes {
+			if pt.pkg != l || cur[pt.name] != nil {
+				continue
+			}
+			var cands []*types.Named
+			for name, n := range cur {
+				if pinnedNames[name] {
+					continue
+				}
+				if ms, nf := typeSig(n); ms == pt.methods && nf == pt.nfields {
+					cands = append(cands, n)
+				}
+			}
+			if len(cands) == 1 {
+				nn := cands[0].Obj().Name()
+				typeRenameTo[l+"."+nn] = l + "." + pt.name
+				typeRenameFrom[l+"."+pt.name] = nn
+				alts = append(alts, regexp.QuoteMeta(l+"."+nn))
+			}
+		}
+	}
+	if len(alts) > 0 {
+		sort.Strings(alts)
+		typeRename = regexp.MustCompile(`\b(` + strings.Join(alts, "|") + `)\b`)
+	}
+}
+
+// pinnedTypeNames rewrites the names of renamed private types in s to their pinned names.
+func pinnedTypeNames(s string) string {
+	if typeRename == nil {
+		return s
+	}
+	return typeRename.ReplaceAllStringFunc(s, func(m string) string { return typeRenameTo[m] })
+}
+
+
+// pinnedShortName: the unqualified name of a named type as rules know it.
+func pinnedShortName(n *types.Named) string {
+	if n == nil || n.Obj() == nil {
+		return ""
+	}
+	name := n.Obj().Name()
+	if n.Obj().Pkg() != nil {
+		if to, ok := typeRenameTo[n.Obj().Pkg().Name()+"."+name]; ok {
+			return to[strings.Index(to, ".")+1:]
+		}
+	}
+	return name
 }
